@@ -10,6 +10,7 @@ import (
 	"io"
 	"os"
 	"path/filepath"
+	"runtime"
 	"sort"
 	"strings"
 	"sync"
@@ -56,7 +57,11 @@ func init() {
 	zenodb.VerifPointHook = func(db *zenodb.DB, table, name string, offset wal.Offset) {
 		pointMx.RLock()
 		h := pointHook
+		extra := extraHooks
 		pointMx.RUnlock()
+		for _, e := range extra {
+			e(db, table, name, offset)
+		}
 		if h != nil {
 			h(db, table, name, offset)
 		}
@@ -71,7 +76,15 @@ var (
 	intercept   func(it *zenodb.VerifIteration) bool
 	pointMx     sync.RWMutex
 	pointHook   func(db *zenodb.DB, table, name string, offset wal.Offset)
+	extraHooks  []func(db *zenodb.DB, table, name string, offset wal.Offset)
 )
+
+// AddPointHook installs a permanent additional hook (used by the cluster driver).
+func AddPointHook(h func(db *zenodb.DB, table, name string, offset wal.Offset)) {
+	pointMx.Lock()
+	extraHooks = append(append([]func(db *zenodb.DB, table, name string, offset wal.Offset){}, extraHooks...), h)
+	pointMx.Unlock()
+}
 
 // SetIntercept installs (or, with nil, removes) a custom iteration intercept.
 func SetIntercept(h func(it *zenodb.VerifIteration) bool) {
@@ -226,6 +239,8 @@ func (d *DB) open() error {
 
 // walEntries parses the WAL directory of a stream the way a reader would and
 // returns the offset of every complete entry, in order.
+func WALEntries(dir string) []wal.Offset { return walEntries(dir) }
+
 func walEntries(dir string) []wal.Offset {
 	var out []wal.Offset
 	files, err := os.ReadDir(dir)
@@ -478,11 +493,33 @@ func (d *DB) Query(sql string, includeMemStore bool) (*Result, error) {
 // QueryZ runs a query against any zenodb.DB. onRow, if given, is called for
 // every row after it has been recorded and may stop the iteration or fail it.
 func QueryZ(z *zenodb.DB, ctx context.Context, sql string, includeMemStore bool, onRow func(i int, r *Row) (bool, error)) (res *Result, err error) {
+	defer func() {
+		if p := recover(); p != nil {
+			// a panic inside zenodb while planning or running a query is reported as
+			// a failed query (the checks treat that as a violation), not as a harness crash
+			err = fmt.Errorf("PANIC in query %q: %v\n%s", sql, p, firstRepoFrames())
+		}
+	}()
 	src, err := z.Query(sql, false, nil, includeMemStore)
 	if err != nil {
 		return nil, err
 	}
 	return RunSource(ctx, src, onRow)
+}
+
+func firstRepoFrames() string {
+	buf := make([]byte, 1<<16)
+	buf = buf[:runtime.Stack(buf, false)]
+	var out []string
+	for _, l := range strings.Split(string(buf), "\n") {
+		if strings.Contains(l, "/repo/") {
+			out = append(out, strings.TrimSpace(l))
+			if len(out) >= 6 {
+				break
+			}
+		}
+	}
+	return strings.Join(out, " <- ")
 }
 
 // RunSource iterates a planned query.
